@@ -774,6 +774,14 @@ class Explorer:
         for l, v in list(env.items()):
             if isinstance(v, MR) and v is not m and (v.frame, v.loc, v.projs) == (m.frame, m.loc, m.projs):
                 env[l] = m
+            elif isinstance(v, MR) and v.frame == m.frame and v.loc == m.loc and len(v.projs) < len(m.projs) \
+                    and tuple(m.projs[:len(v.projs)]) == tuple(v.projs):
+                # m was reborrowed from a part of v's referent (e.g. &mut self.field from &mut self): write through
+                rest = [list(p) if isinstance(p, tuple) else p for p in m.projs[len(v.projs):]]
+                try:
+                    env[l] = MR(v.frame, v.loc, v.projs, write_proj(v.v, rest, m.v))
+                except Exception:
+                    pass
 
     def rvalue(self, env, rv, depth, dsrc, dest):
         k = rv[0]
@@ -1084,6 +1092,23 @@ class Explorer:
                     cont(T(()), ev | {('call', name)}, (f0, f1))
                 else:
                     cont(T(()), ev | {('call', name)})
+            return
+        # Option::take through a tracked mutable reference leaves None behind
+        if name == 'core::option::Option::<T>::take' and isinstance(args[0], MR):
+            m = args[0]
+            oldv = strip(m.v)
+            if isinstance(oldv, A):
+                res = oldv
+            elif self.trace:
+                tg = 'call:take@%s' % t[5]
+                at = tag_of(m)
+                if at and len(at) < 400:
+                    tg += '(%s)' % at
+                res = sym(tg)
+            else:
+                res = TOP
+            none = A('core::option::Option', 0, 'None', ())
+            cont(res, ev | {('call', name)}, (MR(m.frame, m.loc, m.projs, none),))
             return
         ct = self.is_ctor(name)
         if ct:
